@@ -29,6 +29,11 @@ Decided (DESIGN.md section 5, C06):
            M6-held-bytes-delivered         (OPL) bytes put into the local carry-over reach the consumer on every path to the exit
  clause 3  E1-refill-cycle-tests-end-of-input   every cycle through get_input() passes an edge on which input_done() is false
            E2-failure-exit-guarded-by-end-of-input  "truncated" exits of refill methods are guarded by input_done() == true
+           E3-piece-loop-exits-at-end-of-input  a loop that pops pieces and drives the parse (line_by_line, XMLParser::run) is only
+                                           left on an input_done()==true or read_types()==nothing edge (break / return / condition);
+                                           for the PBF / o5m refill loops the same clause is M5#gives-up-only-at-end-of-input
+           (M1 also covers the XML text accumulator m_comment_text: append-only in the expat character-data callback closure,
+            cleared only in the element handlers -- expat splits a text node at piece boundaries and entity references)
  clause 4  X2-xml-final-flag-from-queue-state   the piece itself is fed; isFinal is input_done() evaluated after that pop
            X3-xml-parse-args               XML_Parse(parser, piece.data(), piece.size(), last) exactly once per call
  extra     T1-read-thread-forwards-piece   the read thread forwards every non-empty piece it got from the decompressor
@@ -992,6 +997,85 @@ def carry_rules(fb, R, M=None, wins=None):
 
 # ------------------------------------------------------------------------------------------------ clause 3: end of input
 
+def _keeps_in_member(fn, pieces):
+    """the function puts popped pieces into a member carry-over (refill method)"""
+    return any(_whole_append(fn, n, pieces) or (_short(n['q']) in ADDERS and any(_rooted_at_piece(fn, a, pieces) for a in _real_args(fn, n)))
+               for n in fn.all_nodes()
+               if _is_call(n, prefix=STR) and _carrier_of(fn, n) is not None and _carrier_of(fn, n)[0] == 'field')
+
+
+def _piece_loop_exits(fn, g, R):
+    """E3: a loop whose iterations pop pieces may only be left (loop condition false, break, return, goto) on an edge where
+    input_done() is true or where the consumer wants nothing more (read_types() == nothing), or exceptionally."""
+    pos = fn.positions()
+    gb = pos[g['id']][0]
+    ok_edge = _normal_edges(fn)
+
+    def reach(start, forward=True):
+        seen = {start}
+        work = [start]
+        preds = fn.preds()
+        while work:
+            b = work.pop()
+            if forward:
+                nxt = [s_ for i, s_ in enumerate(fn.blocks[b]['succs']) if s_ is not None and ok_edge(b, i, s_)]
+            else:
+                nxt = preds.get(b, [])
+            for x in nxt:
+                if x not in seen:
+                    seen.add(x)
+                    work.append(x)
+        return seen
+    fwd = set()
+    for i, s_ in enumerate(fn.blocks[gb]['succs']):
+        if s_ is not None:
+            fwd |= reach(s_)
+    body = fwd & reach(gb, forward=False)
+    key = '%s#piece-loop-exit' % fn.q
+    if gb not in body:
+        R.ok('E3-piece-loop-exits-at-end-of-input', key, fn.loc(g['id']), 'get_input() is not inside a loop')
+        return
+    dp = _done_pred_for(fn)
+
+    def nothing_wanted(n):
+        if n is None or n.get('k') != 'binop' or n.get('op') != '==':
+            return False
+        l, r = fn.sn(n['lhs']), fn.sn(n['rhs'])
+        for a, b in ((l, r), (r, l)):
+            if _is_call(a, PARSER + '::read_types') and b is not None and b.get('k') == 'var' and b.get('vk') == 'enumconst' and \
+                    b.get('q', b.get('name', '')).endswith('nothing'):
+                return True
+        return False
+
+    def allowed(b, idx):
+        return _edge_value(fn, b, idx, dp) is True or _edge_value(fn, b, idx, nothing_wanted) is True
+    # blocks of the body reachable from the pop without crossing an allowed edge; any edge from them that leaves the body is a violation
+    seen = {gb}
+    work = [(gb, [])]
+    wit = None
+    while work and wit is None:
+        b, path = work.pop(0)
+        elems = fn.blocks[b]['elems']
+        if b == gb and not path:
+            elems = elems[pos[g['id']][1] + 1:]
+        if any(_is_throw(fn, e) for e in elems) or fn.blocks[b].get('noreturn'):
+            continue
+        for idx, s_ in enumerate(fn.blocks[b]['succs']):
+            if s_ is None or allowed(b, idx):
+                continue
+            if s_ not in body:
+                wit = path + [('B', b), ('B', s_)]
+                break
+            if s_ not in seen:
+                seen.add(s_)
+                work.append((s_, path + [('B', b)]))
+    R.check(wit is None, 'E3-piece-loop-exits-at-end-of-input', key, fn.loc(g['id']),
+            'the loop of %s that pops input pieces can be left although input_done() is not known to be true (and the consumer did not '
+            'ask for "nothing"): the rest of the input is dropped and what is held is treated as the last piece -- the result depends on '
+            'how many pieces a line / document spans: %s' % (fn.q, describe_path(fn, wit)),
+            'every exit of the piece loop is on an input_done()==true or read_types()==nothing edge')
+
+
 def eof_rules(fb, R, M=None):
     M = M or Model(fb)
     for fn, pieces in M.pop_fns:
@@ -1009,12 +1093,12 @@ def eof_rules(fb, R, M=None):
                     'in %s get_input() can be called again without input_done() having been tested false in between (end of input is '
                     'then not taken from the queue state; at end of data the loop spins on empty pieces): %s' % (fn.q, describe_path(fn, wit)),
                     'cycle passes an input_done()==false edge' if cyc is not None else 'not in a loop')
+        # ---- E3: exits of a piece loop that drives the parse (not a refill method: those are covered by M5)
+        if not _keeps_in_member(fn, pieces):
+            for g in gets:
+                _piece_loop_exits(fn, g, R)
         # ---- E2: failing exits of refill methods (pop + keep in a member carry-over)
-        keeps_in_member = any(_whole_append(fn, n, pieces) or (_is_call(n, prefix=STR) and _short(n['q']) in ADDERS and
-                                                                 any(_rooted_at_piece(fn, a, pieces) for a in _real_args(fn, n)))
-                              for n in fn.all_nodes()
-                              if _is_call(n, prefix=STR) and _carrier_of(fn, n) is not None and _carrier_of(fn, n)[0] == 'field')
-        if not keeps_in_member:
+        if not _keeps_in_member(fn, pieces):
             continue
         fails = []
         for n in fn.all_nodes():
@@ -1121,6 +1205,73 @@ def xml_rules(fb, R, M=None):
                 R.check(ok, 'X2-xml-final-flag-from-queue-state', key, fn.loc(c['id']),
                         'in %s %s (with a stale or constant flag expat never sees isFinal and a truncated document is accepted, or it sees '
                         'it one piece early)' % (fn.q, why), 'feeds the popped piece with input_done() evaluated after that pop')
+
+
+def _closure_fns(fb, roots):
+    names = set()
+    for f in roots:
+        names.add(f.q)
+        names |= fb.callees_closure(f)
+    out = []
+    for q in sorted(names):
+        out.extend(f for f in fb.fns(q) if f.has_cfg)
+    return out
+
+
+def xml_text_rules(fb, R):
+    """M1 extended to the text accumulators of the XML parser.  expat delivers one text node in several fragments (at every piece
+    boundary and at every entity reference), so a std::string member written in the character-data callback (the function
+    registered with XML_SetCharacterDataHandler and everything it calls) is a carry-over across fragments: there it may only be
+    appended to, with the callback's text; it may be cleared / reassigned only in the element start / end handlers."""
+    chr_roots, elem_roots = [], []
+    for fn in fb.functions:
+        if not fn.has_cfg:
+            continue
+        for n in fn.all_nodes():
+            if _is_call(n, 'XML_SetCharacterDataHandler') or _is_call(n, 'XML_SetElementHandler'):
+                for a in _real_args(fn, n)[1:]:
+                    x = fn.sn(a)
+                    if x is not None and x.get('k') == 'var' and x.get('vk') == 'function':
+                        (chr_roots if n['q'] == 'XML_SetCharacterDataHandler' else elem_roots).extend(fb.fns(x['q']))
+    if not chr_roots:
+        return
+    chr_fns = _closure_fns(fb, chr_roots)
+    elem_fns = _closure_fns(fb, elem_roots)
+    chr_ids = {id(f) for f in chr_fns}
+    elem_ids = {id(f) for f in elem_fns} - chr_ids
+    # accumulators: std::string members mutated inside the character-data closure
+    acc = {}
+    for fn in chr_fns:
+        for n in fn.all_nodes():
+            if _is_call(n, prefix=STR) and _short(n['q']) in MUTATORS:
+                c = _carrier_of(fn, n)
+                if c is not None and c[0] == 'field' and fn.is_this_member(n['recv']):
+                    acc[c[1]] = c
+    for q, carrier in sorted(acc.items()):
+        name = carrier[2]
+        for fn in fb.functions:
+            if not fn.has_cfg:
+                continue
+            for n in fn.all_nodes():
+                if not (_is_call(n, prefix=STR) and _short(n['q']) in MUTATORS and _str_call_on(fn, n, carrier)):
+                    continue
+                meth = _short(n['q'])
+                args = _real_args(fn, n)
+                key = '%s#%s.%s(%d)' % (fn.q, name, meth, len(args))
+                if id(fn) in chr_ids:
+                    params = {p['d'] for p in fn.params}
+                    from_text = bool(args) and (_root(fn, args[0]) or (None, None))[0] == 'var' and _root(fn, args[0])[1] in params
+                    ok = meth in ('append', 'operator+=', 'push_back') and from_text
+                    why = 'appends the text fragment' if ok else \
+                        'in the character-data callback the text accumulator may only be appended to with the callback\'s text ' \
+                        '(a text node arrives in several fragments; anything else keeps only the last fragment)'
+                elif meth in CAPACITY_ONLY:
+                    ok, why = True, 'capacity only'
+                elif id(fn) in elem_ids:
+                    ok, why = True, 'reset / consumed in an element start/end handler'
+                else:
+                    ok, why = False, 'text accumulator mutated outside the expat callbacks'
+                R.check(ok, 'M1-carry-over-mutation-whitelist', key, fn.loc(n['id']), '%s in %s: %s' % (fn.expr(n['id'])[:90], fn.q, why), why)
 
 
 # ------------------------------------------------------------------------------------------------ read thread
@@ -1336,6 +1487,7 @@ def all_rules(fb, R):
     carry_rules(fb, R, M, wins)
     eof_rules(fb, R, M)
     xml_rules(fb, R, M)
+    xml_text_rules(fb, R)
     thread_rules(fb, R)
     fd_rules(fb, R)
     return M, wins
@@ -1356,13 +1508,14 @@ def run(ctx):
     R.expect('W1-window-rederived', 2)               # O5mParser::m_data, m_end
     R.expect('W2-refill-result-decides', 4)          # decode_header (7); decode_data (1), (max_varint_length), (length)
     R.expect('W3-no-stale-local', 1)                 # line_by_line: data = &input[ppos]
-    R.expect('M1-carry-over-mutation-whitelist', 9)  # PBF reserve, +=, erase; o5m erase, append; OPL append x2, clear, assign
+    R.expect('M1-carry-over-mutation-whitelist', 11)  # PBF reserve, +=, erase; o5m erase, append; OPL append x2, clear, assign; XML m_comment_text append (characters), clear (end_element)
     R.expect('M2-piece-kept', 4)                     # PBF, o5m, OPL, XML pops
     R.expect('M3-erase-is-consumed-prefix', 2)       # o5m erase(0, m_data - data()), PBF erase(0, size)
     R.expect('M4-ensure-pop-paired', 6)              # 3 ensure sites + 3 pop sites in PBFParser
     R.expect('M5-refill-until-needed', 6)            # PBF ensure_available_in_input_queue, o5m ensure_bytes_available: condition, success-implies-enough, gives-up-only-at-end-of-input
     R.expect('M6-held-bytes-delivered', 1)           # line_by_line rest
     R.expect('E1-refill-cycle-tests-end-of-input', 4)
+    R.expect('E3-piece-loop-exits-at-end-of-input', 2)  # line_by_line, XMLParser::run (the PBF / o5m refill loops: M5)
     R.expect('E2-failure-exit-guarded-by-end-of-input', 2)  # PBF throw after the pop; o5m `return false` before the pop (3 before the F2 fix a950292)
     R.expect('X2-xml-final-flag-from-queue-state', 1)
     R.expect('X3-xml-parse-args', 1)
@@ -1378,5 +1531,5 @@ def _selftest(fb, R):
 SELFTESTS = [(r, 'c06_chunking.cpp', _selftest) for r in (
     'W1-window-rederived', 'W2-refill-result-decides', 'W3-no-stale-local', 'M1-carry-over-mutation-whitelist', 'M2-piece-kept',
     'M3-erase-is-consumed-prefix', 'M4-ensure-pop-paired', 'M5-refill-until-needed', 'M6-held-bytes-delivered',
-    'E1-refill-cycle-tests-end-of-input', 'E2-failure-exit-guarded-by-end-of-input', 'X2-xml-final-flag-from-queue-state',
+    'E1-refill-cycle-tests-end-of-input', 'E2-failure-exit-guarded-by-end-of-input', 'E3-piece-loop-exits-at-end-of-input', 'X2-xml-final-flag-from-queue-state',
     'X3-xml-parse-args', 'T1-read-thread-forwards-piece', 'F1-fd-read-is-exact', 'F2-read-exactly-accumulates')]
